@@ -38,7 +38,9 @@ EXTENDS Integers, Sequences, FiniteSets, TLC, Json
 CONSTANTS MaxSegs, Seps, Shape, Emit     \* Seps: the separators used, a subset of AllSeps
 
 \* (hashOp: an operator spelled with '#' - in this language '#' starts no comment)
-Code == {"kwU", "kwL", "kwM", "ident", "num", "comma", "star", "eq", "lparen", "rparen", "hashOp"}
+\* (identKwU8: ONE identifier in which a letter outside ASCII touches letters that spell a keyword - note-like words;
+\*  a rewriter that finds words with a narrower notion of "letter" than the tokenizer sees a keyword there)
+Code == {"kwU", "kwL", "kwM", "ident", "num", "comma", "star", "eq", "lparen", "rparen", "hashOp", "identKwU8"}
 Protected == {"strKw", "strMulti", "strMultiCrlf", "strEsc", "strBs", "qidKw", "btKw", "cmtLine", "cmtPlain", "cmtBlockOne", "cmtBlock", "dollarMulti",
               "cmtBsq", "dollarBsq"}     \* a backslash before a quote OUTSIDE a string literal (comment, dollar-quoted body): nothing special
 MultiLine == {"strMulti", "strMultiCrlf", "cmtBlock", "dollarMulti"}      \* strMultiCrlf: the same with CR-LF line ends inside
